@@ -1,5 +1,6 @@
 import LasModel.Props.C04
-open LasModel.Props.C04
+import LasModel.Props.C04Fmt
+open LasModel.Props.C04 LasModel.Props.C04Fmt
 #print axioms LasModel.FileIO.session_form
 #print axioms LasModel.FileIO.foldStats_flatten
 #print axioms C04_stats
@@ -9,3 +10,10 @@ open LasModel.Props.C04
 #print axioms C04_done_after_evlrs
 #print axioms C04_done_after_close
 #print axioms C04_wrong_format
+#print axioms tuple_fields_known
+#print axioms eq_compares_every_field
+#print axioms dimEq_eq
+#print axioms C04_format_identity
+#print axioms C04_accepted_same_length
+#print axioms C04_format_refl
+#print axioms D04_old_equality_conflates
